@@ -16,6 +16,7 @@ import core, gen
 from core import da, Axis, DimArray, Dataset, MultiAxis
 from dimarray.core.axes import Axes
 from .base import Prop
+from . import c05_cache
 
 # ---------------------------------------------------------------- open defect candidates (see report)
 # TODO(defect): a grouped axis (MultiAxis, result of flatten / reshape) shares its member Axis objects with the
@@ -386,7 +387,10 @@ class C05(Prop):
                 "cumAxis_wf", "diffAxis_wf", "takeAxis_wf", "compressAxis_wf", "dropna_wf", "fillna_wf",
                 "setna_wf", "interpAxis_wf", "DSV.takeDs_wf", "DSV.takeAxisPosDs_wf", "DSV.sortAxisDs_wf", "DSV.reindexAxisDs_wf",
                 "DSV.reduceDs_wf", "DSV.interpAxisDs_wf", "DSV.setItem_wf", "DSV.fromVars_wf", "DSV.copyDs_wf", "DSV.binaryOpDs_scalar_wf",
-                "DSV.binaryOpDs_ds_wf", "DSV.stackDs_wf", "DSV.concatenateDs_wf"]
+                "DSV.binaryOpDs_ds_wf", "DSV.stackDs_wf", "DSV.concatenateDs_wf",
+                "AxisCache.coherent_init", "AxisCache.coherent_step", "AxisCache.coherent_run",
+                "AxisCache.slice_keeps_monotonic", "AxisCache.query_history_independent",
+                "AxisCache.union_history_independent", "AxisCache.sort_sets_true_counterexample"]
     rule = ("(a) constructor groups: one set of axes (rank 0-4, sizes 0-4, int/float/str labels) given through every "
             "documented form (label lists + dims, lists as python lists, (name, labels) pairs, Axis objects, dict + dims, "
             "OrderedDict, dict without dims, labels= keyword, names only, nothing) with values as ndarray / nested list / "
@@ -405,9 +409,19 @@ class C05(Prop):
             "(any order, rank 2-3), then a selection along the grouped axis (position slice / list, boolean mask through "
             "compress_axis and [], dropna, diff by position and by tuple of names, slicing the axis, is_monotonic) compared "
             "with the same operation on a freshly constructed array holding the same tuple labels on a plain axis; "
+            "(b3) cache: histories (all sequences of 2 / 3 operations of a 17-letter alphabet from 9 starts, plus random ones of "
+            "3-16 steps over 1-5 live objects, int / float / str labels, sizes 0-4) of the public operations on real Axis objects "
+            "(plain, or a.axes[0] of a DimArray) that write, copy or read the cached `_monotonic`: construct, values setter, ax[pos]=v "
+            "(incl. refused ones: out-of-range positions, wrong number of labels, integer labels beyond 2**53 next to a float value - nothing may change), ax[:]=labels, ax[slice] (incl. ax[:] returning the object itself), "
+            "ax[list], ax[int], take, is_monotonic, copy, sort, cast (also to the kind the axis already has), union, intersection (incl. results that ARE an operand); after "
+            "EVERY step the result, and labels / dtype kind / `_monotonic` of every live object are compared with the Lean state "
+            "machine AxisCache.step; class P when a cached flag differs from the strict monotonicity of the labels or when "
+            "is_monotonic / union / intersection answer differently from freshly constructed axes; "
             "(c) DimArray.__init__ wrapped during the run: every array the library constructs is checked for well-formedness. "
             "Non-trivial = rank >= 1; distinct = canonical JSON")
-    assumptions = ["dimension names are comma-free non-empty strings (the quantifier of the property)"]
+    assumptions = ["dimension names are comma-free non-empty strings (the quantifier of the property)",
+                   "cache stratum: one label family per axis (numbers or strings, NaN-free, |int| < 2**53); labels are not written "
+                   "through the exposed ndarray `ax.values[k] = v` (that bypasses every setter and is outside the state machine)"]
 
     def mirrors(self):
         from dimarray.core import axes, dimarraycls
@@ -762,6 +776,8 @@ class C05(Prop):
                 yield self.gen_helper(rng)
         for _ in range(120 if quick else 2000):
             yield self.gen_grouped(rng)
+        for c in c05_cache.gen_cache(rng, tier):
+            yield c
         for _ in range(600 if quick else 6000):
             r = rng.random()
             if r < 0.5:
@@ -1462,6 +1478,8 @@ class C05(Prop):
         try:
             if c["op"] == "hist":
                 return self.run_hist(c)
+            if c["op"] == "cache":
+                return c05_cache.run_cache(c)
             if c["op"] == "grouped":
                 return self.run_grouped(c)
             if c["op"] == "ctor2":
@@ -1502,6 +1520,8 @@ class C05(Prop):
             monitor_off()
 
     def request(self, c):
+        if c["op"] == "cache":
+            return c05_cache.request_cache(c)
         if c["op"] in ("hist", "ctor2", "helper2", "axset", "grouped"):
             return dict(DUMMY)
         if c["op"] == "helper":
@@ -1595,6 +1615,8 @@ class C05(Prop):
     def judge(self, c, io, ans):
         bad = []
         detail = {}
+        if c["op"] == "cache":
+            return c05_cache.judge_cache(c, io, ans)
         if c["op"] == "ctor2":
             return self.judge_ctor2(c, io)
         if c["op"] == "helper2":
@@ -1674,11 +1696,15 @@ class C05(Prop):
         return {"monitor_arrays_constructed": MON["constructed"], "monitor_illformed": MON["illformed"]}
 
     def nontrivial(self, c):
+        if c["op"] == "cache":
+            return len(c["ops"]) >= 3
         if c["op"] == "hist":
             return len(c["steps"]) >= 1
         return len(c["axes"]) >= 1
 
     def features(self, c, io):
+        if c["op"] == "cache":
+            return c05_cache.features_cache(c, io)
         if c["op"] == "hist":
             f = {"op": "hist", "rank": len(c["array"]["axes"]), "nsteps": len(c["steps"]), "second_array": bool(c.get("more")),
                  "theme": c.get("theme")}
@@ -1724,7 +1750,7 @@ class C05(Prop):
         return f
 
     def size(self, c):
-        if c["op"] == "hist":
+        if c["op"] in ("hist", "cache"):
             return len(json.dumps(c))
         return sum(len(a["labels"]) for a in c["axes"]) + 10 * len(c["axes"])
 
